@@ -142,7 +142,8 @@ fn cons_model(t: &[usize]) -> Model {
     for (name, o) in [("k1", t[4]), ("k2", t[5])] {
         let g = [uid("g1"), uid("g2"), uid("absent-glass")][o % 3];
         let f = [uid("f1"), uid("f2"), uid("absent-frame")][o / 3];
-        m.cons.wincons.push(wincons(name, g, f, 0.2, 0.0, None, 27.0));
+        // (the first construction has no frame share: it still names its frame)
+        m.cons.wincons.push(wincons(name, g, f, if name == "k1" { 0.0 } else { 0.2 }, 0.0, None, 27.0));
     }
     m.cons.glasses.push(glass("g1", 2.8, 0.7));
     m.cons.glasses.push(glass("g2", 1.1, 0.5));
